@@ -42,8 +42,9 @@ generator kind must be registered and creatable, and every registered kind must 
 def judgeInventory (obs : Json) : Verdict :=
   let gens := strListOpt' obs "generators"
   let reg := strListOpt' obs "registered"
-  let missing := exercisedFilterKinds.filter (fun k => !gens.contains k)
-  let extra := gens.filter (fun k => !exercisedFilterKinds.contains k)
+  let wanted := exercisedFilterKinds.filter (fun k => !kafkaHarnessKinds.contains k)
+  let missing := wanted.filter (fun k => !gens.contains k)
+  let extra := gens.filter (fun k => !wanted.contains k)
   let unreg := gens.filter (fun k => !reg.contains k)
   let unclassified := reg.filter fun k =>
     !exercisedFilterKinds.contains k && !(notInstantiableFilterKinds.map (·.1)).contains k
@@ -54,7 +55,7 @@ def judgeInventory (obs : Json) : Verdict :=
       else if !extra.isEmpty then "inventory:generator-kind-not-in-exercised-list:" ++ ",".intercalate extra
       else if !unreg.isEmpty then "inventory:generator-kind-not-registered:" ++ ",".intercalate unreg
       else "inventory:registered-kind-unclassified:" ++ ",".intercalate unclassified,
-    expected := Json.arr (exercisedFilterKinds.map Json.str).toArray }
+    expected := Json.arr (wanted.map Json.str).toArray }
 
 def parseOuts (obs : Json) (k : String) : List FOut :=
   match getArr obs k with
@@ -145,6 +146,65 @@ def judgeFilters : Judge := liftJudge fun input obs => do
       (if (ops.zip gotOps).any (fun (g, o) => !g.1 && o.result != "") then ["nonempty-result-on-old-generation"] else [])
     return { agree := agree, spec := spec, expected := Json.null, tags := tags1 ++ effTags, nontrivial := oldOps,
              sig := sig, note := optStr obs "note" }
+
+
+/-! ### kafka / kafkamqtt: the Kafka kinds against an in-process MockBroker -/
+
+def koutStr : KOut → String
+  | .sent => "sent" | .failed => "failed" | .panic => "panic"
+
+/-- The kind's failure result string. -/
+def kafkaFail (kind : String) : String := if kind == "KafkaMQTT" then "getDataFailed" else "parseErr"
+
+def judgeKafka : Judge := liftJudge fun input obs => do
+  let kind := optStr input "kind" "?"
+  let err := optStr obs "err"
+  let wait := optBool input "wait"
+  let tags0 := ["kind:" ++ kind, if wait then "waited-for-shutdown" else "not-waited"] ++
+    (if kafkaHarnessKinds.contains kind then [] else ["kind-not-a-kafka-kind"])
+  if err == "bad-input" || err == "bad-spec" || err == "init-panic" || err == "budget-exhausted" || err == "inconclusive" then
+    return { agree := true, spec := true, tags := tags0 ++ ["skipped:" ++ err], nontrivial := false, note := optStr obs "note" }
+  if err == "inherit-panic" || err == "close-panic" then
+    return { agree := false, spec := false, tags := tags0 ++ [err], sig := "panic:" ++ err ++ ":" ++ kind, note := optStr obs "note" }
+  if let some m := obsPanic obs then
+    return { agree := false, spec := false, sig := "panic:harness:" ++ kind, note := m }
+  let opsIn := (← getArr input "ops").toList
+  let preIn := (← getArr input "pre").toList
+  let isNew : List Bool := opsIn.map fun o => optInt o "g" != 0
+  let gotPre := parseOuts obs "pre"
+  let basePre := parseOuts obs "basePre"
+  let gotOps := parseOuts obs "ops"
+  let base := parseOuts obs "base"
+  let lenOk := gotOps.length == isNew.length && base.length == isNew.length && gotPre.length == preIn.length &&
+    basePre.length == preIn.length
+  -- the model (repaired Close): the old generation answers `failed` whatever the timing of the shutdown
+  let want := kafkaScenario true wait isNew
+  let rows := (isNew.zip want).zip (gotOps.zip base)
+  let rowOk := fun (r : (Bool × KOut) × (FOut × FOut)) =>
+    let ((_, w), (o, b)) := r
+    match w with
+    | .sent => o.panic == "" && b.panic == "" && o.result == b.result          -- same as the never-updated instance
+    | .failed => o.panic == "" && o.result == kafkaFail kind
+    | .panic => o.panic != ""
+  let agree := lenOk && kafkaHarnessKinds.contains kind && rows.all rowOk &&
+    (gotPre.zip basePre).all (fun (o, b) => o.panic == "" && o.result == b.result)
+  let badOld := rows.find? fun ((n, _), (o, b)) => !n && o.panic != "" && b.panic == ""
+  let badNew := rows.find? fun ((n, _), (o, b)) => n && o.panic != "" && b.panic == ""
+  let badPre := (gotPre.zip basePre).any fun (o, b) => o.panic != "" && b.panic == ""
+  let spec := badOld.isNone && badNew.isNone && !badPre && lenOk
+  let sig := if badOld.isSome then "panic:old-generation-after-inherit:" ++ kind
+    else if badNew.isSome then "panic:new-generation-after-inherit:" ++ kind
+    else if badPre then "panic:before-update:" ++ kind
+    else if !lenOk then "truncated:" ++ kind else ""
+  let oldOps := isNew.any (!·)
+  let tags := tags0 ++ (if oldOps then ["op-on-old-generation"] else []) ++ (if isNew.any id then ["op-on-new-generation"] else []) ++
+    (if optStr obs "shutdown" == "closed" then ["old-producer-shutdown-observed"] else []) ++
+    (if (gotOps ++ gotPre).any (fun o => o.panic == "" && o.result == "") then ["message-sent"] else []) ++
+    (if ((input.getObjVal? "old").toOption.getD Json.null).compress == ((input.getObjVal? "new").toOption.getD Json.null).compress
+      then ["spec-unchanged"] else [])
+  return { agree := agree, spec := spec, expected := Json.arr (want.map (fun o => Json.str (koutStr o))).toArray,
+           tags := tags, nontrivial := oldOps && wait, sig := sig,
+           note := match badOld with | some (_, (o, _)) => o.panic | none => optStr obs "note" }
 
 /-! ### mux -/
 
@@ -388,7 +448,7 @@ def judgeRegistry : Judge := liftJudge fun input obs => do
            tags := tags, nontrivial := (want.any (·.1 == "updated")) && optInt obs "bgReads" > 0, sig := sig }
 
 def judges : List (String × Judge) :=
-  [("filters", judgeFilters), ("mux", judgeMux), ("muxhist", judgeMuxHist), ("registry", judgeRegistry)]
+  [("filters", judgeFilters), ("kafka", judgeKafka), ("mux", judgeMux), ("muxhist", judgeMuxHist), ("registry", judgeRegistry)]
 
 end Driver.C11
 
